@@ -3,6 +3,7 @@ CONSTANTS
   Dims = {1, 2, 3}
   Addrs = {1, 2}
   KeyHoldsRef = TRUE
+  FullBoots = FALSE
 SPECIFICATION SpecStencil
 CHECK_DEADLOCK FALSE
 INVARIANT L_StepRule
